@@ -1,5 +1,6 @@
 from __future__ import annotations
 
+import copy
 import importlib
 
 import numpy as np
@@ -42,6 +43,18 @@ def _broadcast_array_arg(arg, size, target_chunks):
     return arg
 
 
+def _new_random(cls, rng, *operands):
+    """A random node of its own: it holds a snapshot of ``rng`` (so the node is
+    a function of its operands alone, however often it is re-created from them),
+    and ``rng`` is advanced past what the node derives from the snapshot, so the
+    next call draws different numbers."""
+    from ._expr import _derive_block_seeds
+
+    expr = cls(copy.deepcopy(rng), *operands)
+    _derive_block_seeds(rng, len(expr._info[2]))
+    return new_collection(expr)
+
+
 def _wrap_func(rng, funcname, *args, size=None, chunks="auto", extra_chunks=(), **kwargs):
     from ._expr import RandomNormal, RandomPoisson
 
@@ -73,12 +86,12 @@ def _wrap_func(rng, funcname, *args, size=None, chunks="auto", extra_chunks=(), 
     if funcname == "normal":
         loc = kwargs.pop("loc", args[0] if len(args) > 0 else 0.0)
         scale = kwargs.pop("scale", args[1] if len(args) > 1 else 1.0)
-        return new_collection(RandomNormal(rng, size, chunks, extra_chunks, loc, scale))
+        return _new_random(RandomNormal, rng, size, chunks, extra_chunks, loc, scale)
     elif funcname == "poisson":
         lam = args[0] if len(args) > 0 else kwargs.pop("lam", 1.0)
-        return new_collection(RandomPoisson(rng, size, chunks, extra_chunks, lam))
+        return _new_random(RandomPoisson, rng, size, chunks, extra_chunks, lam)
 
     # Fallback: use generic Random with args/kwargs tuples
     from ._expr import Random
 
-    return new_collection(Random(rng, funcname, size, chunks, extra_chunks, args, kwargs))
+    return _new_random(Random, rng, funcname, size, chunks, extra_chunks, args, kwargs)
